@@ -73,6 +73,19 @@ pub fn op_session(args: &[&str]) -> String {
                     crate::alloc::track(true);
                     client.read(|e| { if let RdpEvent::Bitmap(b) = e { events.push(ev_str(&b)); } else { events.push("[other]".to_string()); } })
                 }
+                "Q" => {
+                    // all frames are ALREADY in the transport (one chunk each); one read call per frame, stop at the first error
+                    let frames: Vec<Vec<u8>> = f[0].split(',').map(parse_bytes).collect();
+                    crate::alloc::track(false);
+                    { let mut s = pipe.0.lock().unwrap(); s.chunks.clear(); for fr in &frames { s.chunks.push_back(fr.clone()); } }
+                    crate::alloc::track(true);
+                    let mut r = Ok(());
+                    for _ in 0..frames.len() {
+                        r = client.read(|e| { if let RdpEvent::Bitmap(b) = e { events.push(ev_str(&b)); } else { events.push("[other]".to_string()); } });
+                        if r.is_err() { break; }
+                    }
+                    r
+                }
                 "P" | "K" | "B" => client.write(mk_event(kind, &f)),
                 "TP" | "TK" | "TB" => client.try_write(mk_event(&kind[1..], &f)),
                 _ => panic!("bad step"),
